@@ -1,7 +1,7 @@
 (* C18 — Staging and deployment never write outside their target directory.  Property theorems only. *)
 From Coq Require Import String List Bool.
 Import ListNotations.
-Require Import V.Path.Model V.Path.Proofs V.Path.Archive V.Path.Deploy V.Path.PreLinks.
+Require Import V.Path.Model V.Path.Proofs V.Path.Archive V.Path.Deploy V.Path.PreLinks V.Path.CopyTree.
 Open Scope string_scope.
 
 (* For the SPECIFIED check (every member, and every link target, stays in the destination after
@@ -110,6 +110,40 @@ Theorem C18_deploy_confined : forall (dsl : bool) (tgt : list string) (man : lis
 Proof. exact deploy_all_safe. Qed.
 Print Assumptions C18_deploy_confined.
 
+(* The CONTENT of copied source folders.  [deploy_fs] runs the manifest entry by entry over a file-system state
+   (what exists in the instance, which entries are links), each :copy bringing the whole tree of its source folder
+   [srcs] — which may hold symbolic links at any depth: to directories, to files, dangling, absolute or relative,
+   leading inside or outside the folder — as shutil.copytree(symlinks=False) does: a link is followed and what it
+   leads to becomes a real directory / file of the instance.  For every manifest (a dict: no key twice), all source
+   trees and all instance directories:
+   no path is reached through a link — the deployment that follows the links of the instance ([res_fs]) does exactly
+   what the one that follows none ([res_lex]) does, entry by entry, also for keys that are nested paths below what an
+   earlier :copy brought, and for conf/ and the package file; ... *)
+Theorem C18_deploy_tree_no_redirect : forall (dsl : bool) (srcs : sources) (tgt : list string) (man : list entry),
+  nodup_keys man = true ->
+  deploy_fs res_fs false dsl srcs tgt man = deploy_fs res_lex false dsl srcs tgt man.
+Proof. exact deploy_tree_no_redirect. Qed.
+Print Assumptions C18_deploy_tree_no_redirect.
+
+(* ... everything created or written (directories made on the way, every file and directory of every copied tree,
+   the links of :link entries, conf/ and the package file; also by a deployment that stops half-way on an OSError)
+   is beneath the instance directory; ... *)
+Theorem C18_deploy_tree_confined : forall (dsl : bool) (srcs : sources) (tgt : list string) (man : list entry),
+  nodup_keys man = true ->
+  forall p k, In (p, k) (fst (deploy_fs res_fs false dsl srcs tgt man)) -> within tgt p.
+Proof. exact deploy_tree_confined. Qed.
+Print Assumptions C18_deploy_tree_confined.
+
+(* ... and a :copy never leaves a link in the instance: the only links are those of the :link entries, at their
+   lexical places (below which Manifest.validate allows no key).  That shutil.copytree follows links is needed:
+   C18_copy_follow_needed_refuted. *)
+Theorem C18_copy_makes_no_link : forall (dsl : bool) (srcs : sources) (tgt : list string) (man : list entry),
+  nodup_keys man = true ->
+  forall p t, In (p, ELink t) (fst (deploy_fs res_fs false dsl srcs tgt man)) ->
+  exists l, In l man /\ is_link l = true /\ p = (tgt ++ clean (fst l))%list.
+Proof. exact copy_makes_no_link. Qed.
+Print Assumptions C18_copy_makes_no_link.
+
 (* non-vacuity: a benign archive (directories, a file, a relative symbolic link with "..", a hard
    link, an absolute name inside the destination) is accepted by the repaired check and extracted where
    expected; the hostile ones are refused; a nested manifest with a link entry is accepted. *)
@@ -140,5 +174,29 @@ Example C18_nonvacuous :
   deploy_ok true [("conf", "/p/c"); ("conf/flowir_package.yaml", "/p/f:link")] = true /\
   stage_entry d "/p/stages/stage0/prod/out.txt" = Some (d ++ ["out.txt"])%list /\
   migrate_entry d "/p/stages/stage0/work" = Some d /\ migrate_entry d "/p/stages/stage0/prod" = Some ["t"; "prod"] /\
-  migrate_entry d "/p/stages/stage0/prod/.." = None.
+  migrate_entry d "/p/stages/stage0/prod/.." = None /\
+  (* a copied folder holding a link to a directory outside, a link to a file and a dangling link two levels down; a
+     second key nested below the first link, a third below a :link-free real directory *)
+  (let i := ["loc"; "i"] in
+   let srcs := [("ds", Some [(["readme.txt"], SFile); (["shared"], SLnk "/store" (Some true)); (["shared"; "big.dat"], SFile);
+                             (["d"], SDir); (["d"; "fl"], SLnk "../readme.txt" (Some false))]);
+                ("extra", Some [(["notes.txt"], SFile)]); ("broken", Some [(["d"], SDir); (["d"; "gone"], SLnk "nowhere" None)]);
+                ("afile", None)] in
+   let man := [("data", "ds:copy"); ("data/shared/extra", "extra:copy"); ("ln", "/p/x:link")] in
+   nodup_keys man = true /\ deploy_ok false man = true /\
+   deploy_fs res_fs false false srcs i man =
+     ([(i ++ ["data"], EDir); (i ++ ["data"; "readme.txt"], EFile); (i ++ ["data"; "shared"], EDir);
+       (i ++ ["data"; "shared"; "big.dat"], EFile); (i ++ ["data"; "d"], EDir); (i ++ ["data"; "d"; "fl"], EFile);
+       (i ++ ["data"; "shared"; "extra"], EDir); (i ++ ["data"; "shared"; "extra"; "notes.txt"], EFile);
+       (i ++ ["ln"], ELink ["p"; "x"]); (i ++ ["conf"], EDir); (i ++ ["conf"; "flowir_package.yaml"], EFile)]%list, true) /\
+   (* the nested key first: the folder copy finds its target present; a dangling link: copied without it, then stops;
+      a source that is not a directory; a key below a copied FILE *)
+   deploy_fs res_fs false false srcs i [("data/shared/extra", "extra:copy"); ("data", "ds:copy")] =
+     ([(i ++ ["data"], EDir); (i ++ ["data"; "shared"], EDir); (i ++ ["data"; "shared"; "extra"], EDir);
+       (i ++ ["data"; "shared"; "extra"; "notes.txt"], EFile)]%list, false) /\
+   deploy_fs res_fs false false srcs i [("b", "broken:copy"); ("c", "extra")] =
+     ([(i ++ ["b"], EDir); (i ++ ["b"; "d"], EDir)]%list, false) /\
+   deploy_fs res_fs false false srcs i [("b", "afile:copy")] = ([], false) /\
+   snd (deploy_fs res_fs false false srcs i [("data", "ds:copy"); ("data/d/fl/x", "extra:copy")]) = false /\
+   nodup_keys [("a", "x"); ("b", "y"); ("a", "z:link")] = false).
 Proof. vm_compute. repeat split; reflexivity. Qed.
